@@ -388,6 +388,7 @@ CHECKS["C14"] = {
             {"run": "TestVfC14MassWake", "quick": 64, "thorough": 72000, "timeout_thorough": 3000, "shards_quick": 4, "shards_thorough": 8},
             {"run": "TestVfC14WriteStall", "quick": 48, "thorough": 1600, "shards_quick": 8, "shards_thorough": 16, "timeout_thorough": 3000},
             {"run": "TestVfC14Saturated", "quick": 96, "thorough": 3200, "shards_quick": 8, "shards_thorough": 16},
+            {"run": "TestVfC14UdpServerRestart", "quick": 48, "thorough": 3200, "shards_quick": 8, "shards_thorough": 16, "timeout_thorough": 3400},
         ]},
     ],
     "assumptions": ["fake servers listen on 127.0.0.1 with certificates from the harness CA"],
